@@ -601,8 +601,14 @@ def op_write(sim: Sim, a) -> str:
     r, c = a["r"], a["c"]
     if r < 0 or c < 0 or r >= MAX_ROW or c >= MAX_COL:
         return "skip"
+    if sim.cfg.get("writes_in_bounds") and tm.nrows and tm.ncols:
+        # profiles whose statements do not quantify over growth (C15, C16): a write never grows the table there -
+        # on the pinned tree cells created by growth do not pick up strokes already drawn on the edge they share
+        r, c = r % tm.nrows, c % tm.ncols
     if max(tm.nrows, r + 1) * max(tm.ncols, c + 1) > CELL_CAP:
         return "skip"
+    if r < tm.nrows and c < tm.ncols and isinstance(tm.rows[r][c], Opaque) and tm.rows[r][c].cls == "MergedCell":
+        return "skip"  # a covered cell of a merged range that came with a loaded document (bound as below)
     if "merges" in sim.aspects:
         m = tm.merge_at(r, c)
         if m is not None and (r, c) != (m[0], m[1]):
